@@ -145,6 +145,14 @@ impl<'a> Iterator for ColourStream<'a> {
     // half of the streams report their exact remaining length, like slices and ranges do; the others
     // report the default (0, None), like from_fn / filter chains
     fn size_hint(&self) -> (usize, Option<usize>) {
+        if self.seed % 3 == 2 {
+            // like `once(c).chain(decoder)` or a peeked stream: a small positive lower bound, no upper bound
+            let rem = match self.len {
+                StreamLen::Finite(l) => l.saturating_sub(self.k),
+                StreamLen::Infinite => u64::MAX,
+            };
+            return (rem.min(1 + (self.seed as u64 >> 3) % 5) as usize, None);
+        }
         match self.len {
             StreamLen::Finite(l) if self.seed & 1 == 1 => {
                 let rem = l.saturating_sub(self.k);
@@ -504,7 +512,12 @@ where
     let mut clk = Clock { w: w.clone() };
     let r: Result<Box<dyn Dut>, DutErr> = guard(|| {
         if cfg.reset_pin {
-            let b = opts(Builder::new(m, di), cfg).reset_pin(pin(w, Src::Rst));
+            // the reset pin is attached before or after the other builder calls
+            let b = if (cfg.w as usize + cfg.oy as usize + cfg.orient.index()) % 2 == 0 {
+                opts(Builder::new(m, di), cfg).reset_pin(pin(w, Src::Rst))
+            } else {
+                opts(Builder::new(m, di).reset_pin(pin(w, Src::Rst)), cfg)
+            };
             let d = b.init(&mut clk).map_err(map_init_err)?;
             Ok(Box::new(DutImpl { d, w: w.clone() }) as Box<dyn Dut>)
         } else {
@@ -589,10 +602,14 @@ impl<'a> ModelVisitor for BuildU8<'a> {
             Transport::Rec8 => finish(RecIface::<u8, KP8>::new(w), m, cfg, w),
             Transport::Spi { buf } => {
                 // poisoned staging buffer: stale content must never reach the bus
-                let b: Box<[u8]> = vec![0xA5u8; buf as usize].into_boxed_slice();
+                // one spare byte in front: the buffer handed to the driver starts at an odd or an even
+                // address (users slice static arrays at arbitrary offsets)
+                let b: Box<[u8]> = vec![0xA5u8; buf as usize + 1].into_boxed_slice();
                 let raw: *mut [u8] = Box::into_raw(b);
+                let skip = if (buf as usize + cfg.w as usize) % 2 == 0 { 0 } else { 1 };
                 // SAFETY: see SpiHolder
-                let slice: &'static mut [u8] = unsafe { &mut *raw };
+                let whole: &'static mut [u8] = unsafe { &mut *raw };
+                let slice: &'static mut [u8] = &mut whole[skip..skip + buf as usize];
                 let di = SpiInterface::new(SpiDev { w: w.clone() }, pin(w, Src::Dc), slice);
                 match finish(di, m, cfg, w) {
                     Ok(d) => Ok(Box::new(SpiHolder { dut: Some(d), buf: raw }) as Box<dyn Dut>),
